@@ -641,7 +641,21 @@ impl Allocator {
                     outcome: crate::verif::GcOutcome::ReplaceClone,
                     saved_bytes: len,
                 });
-                Ok(MaybeRestore::Replace(self.new_atom(&saved_bytes[..len])?))
+                // the replacement stays a heap atom, like the one it replaces.
+                // new_atom() may turn it into an inline atom, and new_substr()
+                // accounts a slice of an inline atom differently from a slice
+                // of a heap atom, which would make the restore observable
+                let start = self.u8_vec.len();
+                if start + self.ghost_heap + len > self.heap_limit {
+                    return Err(EvalErr::OutOfMemory);
+                }
+                self.u8_vec.extend_from_slice(&saved_bytes[..len]);
+                let idx = self.atom_vec.len();
+                self.atom_vec.push(AtomBuf {
+                    start: start as u32,
+                    end: (start + len) as u32,
+                });
+                Ok(MaybeRestore::Replace(self.mk_node(ObjectType::Bytes, idx)))
             }
         }
     }
